@@ -143,7 +143,7 @@ def heap_straus(rep, cfg, path, n, backend=None):
     """constant-time Straus: at every dealloc no freed cell may hold a digit of a secret scalar"""
     t0 = time.time()
     rec = dict(harness="%s/heap EdwardsPoint::multiscalar_mul n=%d" % (cfg + ("+" + backend if backend else ""), n), config=cfg, function="EdwardsPoint::multiscalar_mul -> serial::scalar_mul::straus::Straus::multiscalar_mul", goals=[],
-               bounds="n = %d points, all digits of all scalars symbolic" % n)
+               bounds="n = %d points; all digits of %s symbolic" % (n, "all scalars" if n <= 8 else "scalars 0 and 1 (the other scalars are the public constant 0)"))
     try:
         it = gsym.GSym(module(path))
         if backend:
@@ -157,9 +157,13 @@ def heap_straus(rep, cfg, path, n, backend=None):
             freed.append((p.r, R.size, len(dirty), kind))
         it.on_dealloc = on_dealloc
         out = it.new_region("out", 4 * it.fs); sc = it.new_region("scalars", 32 * n); pts = it.new_region("points", 4 * it.fs * n)
+        nsym = n if n <= 8 else 2       # large batches: two secret scalars with all digits symbolic, the others public zeros (same code path, same buffers)
         for i in range(n):
-            so = gsym.ScalarObj("s%d" % i)
-            for k in range(32): it.regions[sc.r].b[32 * i + k] = (so, k, 32)
+            if i < nsym:
+                so = gsym.ScalarObj("s%d" % i)
+                for k in range(32): it.regions[sc.r].b[32 * i + k] = (so, k, 32)
+            else:
+                for k in range(32): it.store(Ptr(sc.r, 32 * i + k), Poly.const(0), 1)
             it.put(Ptr(pts.r, 4 * it.fs * i), gsym.G.base("P%d" % i), 4 * it.fs)
         it.call("vp_g_multiscalar_mul", [out, sc, Poly.const(n), pts, Poly.const(n)])
         nd = [f for f in freed if f[3] == "digits"]
